@@ -5,6 +5,7 @@ import (
 	"encoding/base64"
 	"fmt"
 	"net/http"
+	"net/netip"
 	"net/url"
 	"strings"
 
@@ -18,7 +19,8 @@ func decodeBasic(h string) (user, pass string, ok bool) {
 	if len(h) < 6 || !strings.EqualFold(h[:6], "basic ") {
 		return "", "", false
 	}
-	b, err := base64.StdEncoding.DecodeString(h[6:])
+	// RFC 4648 section 3.3 lets a decoder ignore line breaks; the Go one does.
+	b, err := base64.StdEncoding.DecodeString(strings.NewReplacer("\r", "", "\n", "").Replace(h[6:]))
 	if err != nil {
 		return "", "", false
 	}
@@ -50,6 +52,12 @@ func httpCampaign(o *hlib.Opts, rn *runner, w *world) {
 		v := pick(rng, doh)
 		db := genDB(rng.IntN, randAuth(rng))
 		q := genRequest(rng, v, db)
+		// This campaign is about what precedes the finder; Wrap's own exits
+		// are left to the other campaigns.
+		q.wrapped, q.port0, q.qname = false, false, ""
+		if q.silent() {
+			q.rip = netip.MustParseAddr("203.0.113.9")
+		}
 		user, pass := pick(rng, devIDs), pick(rng, pwPool)
 		if rng.IntN(4) == 0 {
 			user = pick(rng, idLabels)
@@ -111,6 +119,16 @@ func httpCampaign(o *hlib.Opts, rn *runner, w *world) {
 		}
 		hr := &http.Request{Method: http.MethodGet, URL: &url.URL{Scheme: "https", Host: "dns.example", Path: q.path, RawQuery: "dns=AAAA"},
 			Header: http.Header{}, TLS: &tls.ConnectionState{ServerName: q.sni}}
+		if hdr != "" && rng.IntN(12) == 0 {
+			// The base64 decoder skips CR and LF wherever they stand; an HTTP
+			// server never lets them through, but the finder's input is
+			// whatever BasicAuth makes of the value.
+			k := 6 + rng.IntN(len(hdr)-5)
+			if k > len(hdr) {
+				k = len(hdr)
+			}
+			hdr = hdr[:k] + pick(rng, []string{"\r\n", "\n", "\r"}) + hdr[k:]
+		}
 		if hdr != "" {
 			hr.Header.Set("Authorization", hdr)
 		}
@@ -155,6 +173,11 @@ func httpCampaign(o *hlib.Opts, rn *runner, w *world) {
 			hr.Header.Set("X-Forwarded-Host", decoyName)
 			hr.Header.Set("Cookie", "device="+decoyID)
 			decoys += "headers "
+		}
+		if hdr != "" && rng.IntN(4) == 0 {
+			// A second Authorization value: only the first one counts.
+			hr.Header.Add("Authorization", "Basic "+enc([]byte(decoyID+":"+decoyPW)))
+			decoys += "auth2 "
 		}
 		if rng.IntN(8) == 0 {
 			// No TLS state at all (cleartext HTTP behind a terminator): no
